@@ -184,3 +184,32 @@ theorem charAtByte_end (s : List Char) : charAtByte s (utf8Len s) = none := by
     exact ih
 
 end AsModel.Runtime
+
+namespace AsModel.Runtime
+
+theorem boundaryB_iff (s : List Char) : ∀ n, boundaryB s n = true ↔ IsBoundary s n := by
+  induction s with
+  | nil =>
+    intro n
+    simp only [boundaryB, beq_iff_eq]
+    constructor
+    · intro h; exact ⟨0, Nat.le_refl _, by simp [h, utf8Len]⟩
+    · rintro ⟨i, _, h⟩; simpa [utf8Len] using h
+  | cons c cs ih =>
+    intro n
+    simp only [boundaryB, Bool.or_eq_true, beq_iff_eq, Bool.and_eq_true, decide_eq_true_eq]
+    constructor
+    · rintro (h | ⟨h1, h2⟩)
+      · exact ⟨0, Nat.zero_le _, by simp [h, utf8Len]⟩
+      · obtain ⟨i, hi, he⟩ := (ih _).1 h2
+        refine ⟨i + 1, by simpa using hi, ?_⟩
+        simp only [List.take_succ_cons, utf8Len]; omega
+    · rintro ⟨i, hi, he⟩
+      cases i with
+      | zero => left; simpa [utf8Len] using he
+      | succ j =>
+        right
+        simp only [List.take_succ_cons, utf8Len] at he
+        refine ⟨by omega, (ih _).2 ⟨j, by simpa using hi, by omega⟩⟩
+
+end AsModel.Runtime
